@@ -118,6 +118,10 @@ type Client struct {
 
 	grpcMuxerOnce sync.Once
 	grpcMuxer     *grpcmux.GRPCClientMuxer
+
+	// launchAttempted is set once Start has gone as far as launching the
+	// plugin, so that a later Start does not launch it a second time.
+	launchAttempted bool
 }
 
 // NegotiatedVersion returns the protocol version negotiated with the server.
@@ -646,6 +650,13 @@ func (c *Client) Start() (addr net.Addr, err error) {
 		return c.reattach()
 	}
 
+	// A client launches its plugin at most once. If an earlier Start launched
+	// it and then failed (timeout, bad handshake, ...) the process has been
+	// killed; do not launch another one.
+	if c.launchAttempted {
+		return nil, errors.New("plugin was already launched by this client and failed to start")
+	}
+
 	if c.config.VersionedPlugins == nil {
 		c.config.VersionedPlugins = make(map[int]PluginSet)
 	}
@@ -734,6 +745,8 @@ func (c *Client) Start() (addr net.Addr, err error) {
 	if c.unixSocketCfg.Group != "" {
 		cmd.Env = append(cmd.Env, fmt.Sprintf("%s=%s", EnvUnixSocketGroup, c.unixSocketCfg.Group))
 	}
+
+	c.launchAttempted = true
 
 	var runner runner.Runner
 	switch {
